@@ -56,4 +56,23 @@ Proof.
   - apply IH. intros j Hj. specialize (H (S j)). simpl in H. rewrite <- H by lia. f_equal. lia.
 Qed.
 
+Lemma skipn_skipn_add (a b : nat) (l : list A) : skipn a (skipn b l) = skipn (b + a) l.
+Proof.
+  revert l; induction b as [|b IH]; intros l; simpl; [reflexivity|].
+  destruct l as [|h t]; [destruct a; reflexivity | apply IH].
+Qed.
+
+Lemma app_inv_length (x1 x2 y1 y2 : list A) :
+  x1 ++ x2 = y1 ++ y2 -> length x1 = length y1 -> x1 = y1 /\ x2 = y2.
+Proof.
+  revert y1; induction x1 as [|a x1 IH]; intros [|b y1]; simpl; intros H L; try discriminate; auto.
+  injection H as -> H. destruct (IH y1 H) as [-> ->]; [lia | auto].
+Qed.
+
+Lemma nth_map_seq (f : nat -> A) (st k j : nat) d : j < k -> nth j (map f (seq st k)) d = f (st + j).
+Proof.
+  revert st j; induction k as [|k IH]; intros st j H; simpl; [lia|].
+  destruct j as [|j]; simpl; [f_equal; lia|]. rewrite IH by lia. f_equal; lia.
+Qed.
+
 End ListX.
